@@ -77,6 +77,10 @@ class Substitutor(SchemaVisitor[GenericSchema]):
         result = schema.__accept__(self._validator, value=value)
         if result.has_errors():
             raise make_substitution_error(result, self._formatter)
+        if schema.props.value is not Nil:
+            # an already declared value is compared with a tolerance: keep it, so that
+            # the result never accepts a float the original schema rejects
+            return schema.__class__(schema.props)
         return schema.__class__(schema.props.update(value=value))
 
     def visit_str(self, schema: StrSchema, *, value: Any = Nil, **kwargs: Any) -> StrSchema:
